@@ -128,7 +128,27 @@ def main(verbose=False):
             bad += 1
         if verbose or status != 'ok':
             print('CONFORMANCE {:14s} {:3d} obligations  {}'.format(qual, len(obs), status))
-    print('CONFORMANCE: {} cases, {} obligations, {} failing'.format(len(cases.CONTRACTS), total_ob, bad))
+    negs = getattr(cases, 'NEGATIVE', {})
+    for (rel, qual), c in negs.items():
+        # a FALSE contract: CPython must refute it and pyvc must leave a postcondition unproved
+        eng = engine.Engine(repo, dict(negs), {})
+        try:
+            obs = eng.verify(rel, qual, contract=c)
+            solve.discharge(obs)
+            proved_all = all(o.verdict == 'proved' for o in obs if o.kind == 'post')
+        except engine.Unsupported:
+            proved_all = False
+        nat = native_check(getattr(cases, qual), c, rnd)
+        status = 'ok'
+        if nat is None:
+            status = 'negative case is not false natively: fix the case'
+        elif proved_all:
+            status = 'UNSOUND: a false contract was proved (CPython: {})'.format(nat)
+        if status != 'ok':
+            bad += 1
+        if verbose or status != 'ok':
+            print('CONFORMANCE {:14s} negative  {}'.format(qual, status))
+    print('CONFORMANCE: {} cases, {} obligations, {} negative cases, {} failing'.format(len(cases.CONTRACTS), total_ob, len(negs), bad))
     return bad
 
 
